@@ -159,3 +159,9 @@ def check(ctx):
     check_adapter(ctx, "R09-g", "LockAdapter", "_internal_lock", "_lock", "create_lock", {"fast_acquire": "_fast_acquire"}, value_members=("locked", "statistics"))
     check_factory(ctx, "R09-g", "Lock", "create_lock", "LockAdapter")
     check_async_with(ctx, "R09-g", "Lock")
+
+    # ---- R09-h the summary the guarded-write rules rest on (A3): checkpoint_if_cancelled() never yields and then returns normally --------
+    # (a task that could be suspended between the "is it free?" test and the write would let two tasks pass the test in one cycle)
+    from .walkers import check_cic, check_walker
+    check_cic(ctx, "R09-h")
+    check_walker(ctx, "R09-h", ctx.fn("AsyncIOBackend.checkpoint_if_cancelled", A))
